@@ -193,8 +193,14 @@ def abort_case(case):
       def tearDown(self):
         log.append(('plug-td', s.k))
 
+    class Driver(htf.plugs.BasePlug):
+      """tearDown bound on the instance (forwarded to the wrapped driver), none on the class."""
+
+      def __init__(self):
+        self.tearDown = lambda: log.append(('plug-td-instance', s.k))
+
     nodes, ts = build(case['template'], htf, s, log)
-    marker = htf.plug(p=P)(lambda test, p: None)
+    marker = htf.plug(p=P, drv=Driver)(lambda test, p, drv: None)
     marker.func.__name__ = 'marker'
     test = htf.Test(*(nodes + [htf.PhaseGroup(teardown=[marker])]))
     cbs = []
@@ -337,6 +343,9 @@ def check(case):
   if len(enters) <= 1:
     if not plug_td and any(e[0] == 'plug-ctor' for e in log):
       r.bad('C04/plug-teardown-skipped', '%s plan=%r log=%r' % (tag, case.get('plan'), log))
+    elif plug_td and not any(e[0] == 'plug-td-instance' for e in log):
+      r.bad('C04/plug-teardown-skipped/instance-bound', '%s plan=%r: the plug whose tearDown is bound on the instance was not torn down; log=%r' % (
+          tag, case.get('plan'), log))
     started = {e[1] for _, e in starts}
     pairs = {'group': [('m1', ['t1', 't2'])], 'nested': [('im', ['it', 't1']), ('m1', ['t1'])], 'subtest': [('m', ['t'])],
              'teardown-blocks': [('m1', ['t1'])], 'swallow': [('m1', ['t1'])], 'slow-exit': [('m1', ['t1'])], 'two-groups': [('m1', ['t1']), ('m2', ['t2'])]}
